@@ -23,17 +23,49 @@ for _k in (1, 2, 3, 4, 5):
 
 # ---- C06.a / C06.b sector quota and nmaxi selection over the distance-sorted candidate list
 _SEL_STUBS = ['NeighMoving object is raw storage (no constructor): _nSect, _nSMax, _nMaxi, _movingInd, _movingDst, _movingIsect, _movingNsect initialised by the harness exactly as attach()/_moving() size and fill them']
-for _ns, _nsel, _tiers in ((1, 5, ('quick', 'thorough')), (2, 5, ('quick', 'thorough')), (3, 5, ('quick', 'thorough')),
-                           (4, 7, ('thorough',))):
-    for _kid, _entry, _what in (
-            ('C06.a', 'k_sector_nsmax', 'NeighMoving::_movingSectorNsmax: in every sector exactly the min(count, nsmax) closest candidates keep their sector, the others become -1'),
-            ('C06.b', 'k_select', 'NeighMoving::_movingSelect: kept set == cycling over the sectors taking the next-closest of each non-exhausted sector; total kept == min(nmaxi, available); single sector: the nmaxi closest')):
+for _ns, _tiers in ((1, ('quick', 'thorough')), (2, ('quick', 'thorough')), (3, ('quick', 'thorough')), (4, ('thorough',))):
+    for _kid, _entry, _nq, _nt, _what in (
+            ('C06.a', 'k_sector_nsmax', 5, 6, 'NeighMoving::_movingSectorNsmax: in every sector exactly the min(count, nsmax) closest candidates keep their sector, the others become -1'),
+            ('C06.b', 'k_select', 4, 5, 'NeighMoving::_movingSelect: kept set == cycling over the sectors taking the next-closest of each non-exhausted sector; total kept == min(nmaxi, available); single sector: the nmaxi closest')):
+        _b = 'exactly %d candidates among %d samples (arbitrary injective candidate->sample map), strictly increasing arbitrary distances, %d sector(s) with arbitrary sector of each candidate, arbitrary positive nsmax / nmaxi, arbitrary stale work arrays'
         K('%s.%d' % (_kid, _ns), property='C06', engine='symex', harness='C06/select.cpp', entry=_entry,
-          tus=['src/Neigh/NeighMoving.cpp'], defines={'all': {'VF_NSECT': _ns, 'VF_NSEL': _nsel}}, tiers=_tiers,
-          bounds={'quick': 'exactly %d candidates among %d samples (arbitrary injective candidate->sample map), strictly increasing arbitrary distances, %d sector(s) with arbitrary sector of each candidate, arbitrary positive nsmax / nmaxi, arbitrary stale work arrays' % (_nsel, _nsel + 1, _ns)},
+          tus=['src/Neigh/NeighMoving.cpp'], defines={'all': {'VF_NSECT': _ns}, 'quick': {'VF_NSEL': _nq}, 'thorough': {'VF_NSEL': _nt}}, tiers=_tiers,
+          bounds={'quick': _b % (_nq, _nq + 1, _ns), 'thorough': _b % (_nt, _nt + 1, _ns)},
           timeout_ms={'quick': 120000, 'thorough': 900000}, validate={'quick': 30, 'thorough': 60},
           what=_what, out='ties between distances; nsmax <= 0 / nmaxi <= 0 (selection step skipped by the caller / by the function)',
           assumptions=['candidates are listed by strictly increasing distance (what VH::arrangeInPlace establishes; ties excluded by the property)',
-                       'candidate sectors lie in [0, nsect) (C06.g), -1 marks a discarded candidate',
-                       'nsmax > 0 (the caller _moving tests getNSMax() > 0), nmaxi > 0'],
+                       'candidate sectors lie in [0, nsect) (C06.g), -1 marks a candidate already discarded by the quota step',
+                       'nsmax > 0 (the caller _moving tests getNSMax() > 0), nmaxi > 0',
+                       'each per-candidate assertion of C06.b is re-used as a lemma (vf_assume of the asserted fact) for the two counting assertions'],
           stubs=_SEL_STUBS)
+
+# ---- C06.g sector index of a candidate
+def _atan_opts(symex, z3):
+    import math
+    from fractions import Fraction
+    half_pi = z3.RealVal(Fraction(math.pi) / 2)   # the double the code writes as GV_PI / 2.
+
+    def atan_axioms(f, args, app):
+        x = args[0]
+        return [z3.Implies(x >= 0, z3.And(app >= 0, app <= half_pi)), z3.Implies(x > 0, app > 0)]
+    return {'libm_axioms': {'atan': atan_axioms}}
+
+
+def _atan_native(x):
+    # concrete arguments (translator validation runs): the value the native libm returns
+    import math
+    from fractions import Fraction
+    return Fraction(math.atan(float(x)))
+
+
+K('C06.g', property='C06', engine='symex', harness='C06/sector.cpp', entry='k_sector_define',
+  tus=['src/Neigh/NeighMoving.cpp'], symex_opts=_atan_opts, symex={'libm_exact': {'atan': _atan_native}},
+  cxxflags=['-fno-inline'],   # keep the divisions inside the branches that guard them (no hoisting into the harness loop)
+  bounds={'quick': 'arbitrary real (dx,dy) != (0,0); nsect = 2..16 (each value)'},
+  timeout_ms={'quick': 120000, 'thorough': 600000}, validate={'quick': 30, 'thorough': 60},
+  what='NeighMoving::_movingSectorDefine: result in [0, nsect) in the real-arithmetic reading',
+  out='IEEE rounding of 2*pi - atan(.) and of nsect*angle/(2*pi): decided bit-precisely by C06.g.ieee',
+  assumptions=['atan is an uninterpreted function with: x >= 0 => 0 <= atan(x) <= GV_PI/2 (as a double), x > 0 => atan(x) > 0',
+               'real-arithmetic reading (no rounding)'],
+  stubs=['atan: uninterpreted function + range axioms (symex libm_axioms)',
+         'NeighMoving object is raw storage: only _nSect is initialised'])
